@@ -73,6 +73,8 @@ type outcome struct {
 	panicMsg    string
 	drainLost   bool
 	afterReturn string
+	probeMiss   string // round 6: emission probe (see syncListener)
+	probed      int
 	dbFailed    int
 	plugin      []pluginCall
 	restarts    int
@@ -115,6 +117,11 @@ func buildChains(sc Scenario) ([][]*lib.Bundle, error) {
 			var spec *lib.BlockSpec
 			if sc.RichTxs > 0 {
 				spec = richSpec(g, sc.RichTxs)
+				if sc.Kind == "tamper" && a == e.Add-1 {
+					// round 6: the last block of a tamper chain declares NO class (corruption kind
+					// "undeclared-class-entry" needs one)
+					spec = noDeclareSpec(g)
+				}
 			}
 			if _, err := g.Next(spec); err != nil {
 				return nil, err
@@ -123,6 +130,24 @@ func buildChains(sc Scenario) ([][]*lib.Bundle, error) {
 		out = append(out, append([]*lib.Bundle{}, g.Bundles...))
 	}
 	return out, nil
+}
+
+// noDeclareSpec: a rich block (events, signatures) without a Declare transaction.
+func noDeclareSpec(g *lib.ChainGen) *lib.BlockSpec {
+	var spec *lib.BlockSpec
+	for try := 0; try < 200; try++ {
+		spec = richSpec(g, 3)
+		declares := false
+		for _, tx := range spec.Txs {
+			if _, ok := tx.(*core.DeclareTransaction); ok {
+				declares = true
+			}
+		}
+		if !declares {
+			break
+		}
+	}
+	return spec
 }
 
 // richSpec: a block with n transactions (no legacy Deploy), at least one event and one signature;
@@ -177,6 +202,55 @@ type syncListener struct {
 	rec    *recorder
 	churn  *churner
 	status *statusTracker
+	// round 6, EMISSION PROBE: a plain new-heads subscription that NO goroutine reads. The harness itself
+	// takes its value, without waiting, when the NEXT store begins (OpStore callback: same callback
+	// goroutine as the previous storeTask, so `newHeads.Send(previous block)` has returned) and after Run
+	// returned: the notification of a stored block must be IN the subscriber's slot before the pipeline
+	// goes on — an emission handed to another goroutine, or made late, is seen here although the drained
+	// readers below would serialise it away.
+	probe     *junosync.NewHeadSubscription
+	probeOwed *headRec
+	probeMiss string
+	probed    int
+	// the recorder did not show the block as its head when the callback ran (never seen): the probe of this
+	// instance is switched off rather than risk a wrong alarm
+	probeBlind bool
+}
+
+// probeTake: the value the probe must hold now (nothing if no store happened since the last look).
+func (l *syncListener) probeTake(when string) {
+	if l.probe == nil {
+		return
+	}
+	owed := l.probeOwed
+	l.probeOwed = nil
+	if l.probeBlind {
+		select {
+		case <-l.probe.Recv():
+		default:
+		}
+		return
+	}
+	select {
+	case b, ok := <-l.probe.Recv():
+		switch {
+		case !ok:
+		case owed == nil:
+			if l.probeMiss == "" {
+				l.probeMiss = fmt.Sprintf("%s: a subscriber nobody reads holds new head %d although no block was stored since it was last emptied", when, b.Number)
+			}
+		case b.Number != owed.num || !b.Hash.Equal(&owed.hash):
+			if l.probeMiss == "" {
+				l.probeMiss = fmt.Sprintf("%s: the slot of a subscriber nobody reads holds new head %d, the block stored last is %d", when, b.Number, owed.num)
+			}
+		default:
+			l.probed++
+		}
+	default:
+		if owed != nil && l.probeMiss == "" {
+			l.probeMiss = fmt.Sprintf("%s: the new-head notification of stored block %d is not in the slot of a subscriber that was subscribed all along and empty: storeTask returned without having emitted it", when, owed.num)
+		}
+	}
 }
 
 func (l *syncListener) OnSyncStepDone(op string, n uint64, took time.Duration) {
@@ -199,6 +273,21 @@ func (l *syncListener) OnSyncStepDone(op string, n uint64, took time.Duration) {
 	}
 	// Called by storeTask after Store succeeded and before the feed sends of this block.
 	r := l.rec
+	if l.probe != nil {
+		l.probeTake(fmt.Sprintf("when storeTask of block %d began its sends", n))
+		r.mu.Lock()
+		if k := len(r.chain); k > 0 && r.chain[k-1].num == n {
+			h := r.chain[k-1]
+			l.probeOwed = &h
+		} else {
+			l.probeBlind = true
+			if r.ops == nil {
+				r.ops = map[string]int{}
+			}
+			r.ops["probe-switched-off(recorder head is not the stored block)"]++
+		}
+		r.mu.Unlock()
+	}
 	r.mu.Lock()
 	// the sends of the current store have not happened yet
 	wantN, wantG := r.stores-1, r.reorgsOwed
@@ -272,14 +361,20 @@ func startHeartbeat() {
 // cases are skipped (a broken synchroniser would otherwise cost a minute per case).
 var hangs atomic.Int32
 
+// livelocks counts cases stopped by the commit bound (round 6); after a few of them the remaining
+// cases are skipped like after hangs: every further case would run into the same bound.
+var livelocks atomic.Int32
+
 func runScenario(sc Scenario) (out *outcome) {
 	out = &outcome{sc: sc, persisted: map[string]int{}}
-	if hangs.Load() >= 3 || drainLosses.Load() >= 6 {
+	if hangs.Load() >= 3 || drainLosses.Load() >= 6 || livelocks.Load() >= 4 {
 		out.skipped = true
 		return out
 	}
 	defer func() {
-		if out.hang != "" {
+		if strings.HasPrefix(out.hang, "livelock:") {
+			livelocks.Add(1)
+		} else if out.hang != "" {
 			hangs.Add(1)
 		}
 	}()
@@ -399,6 +494,10 @@ func runScenario(sc Scenario) (out *outcome) {
 		if !sc.NoChurn {
 			lis.churn = &churner{r: lib.NewRNG(sc.Seed ^ 0xFEED ^ uint64(inst)), s: s, rec: rec, hits: churnHits}
 		}
+		if !sc.ReadOnly {
+			pr := s.SubscribeNewHeads()
+			lis.probe = &pr
+		}
 		nh := s.SubscribeNewHeads()
 		rg := s.SubscribeReorg()
 		readersDone := make(chan struct{}, 2)
@@ -443,6 +542,10 @@ func runScenario(sc Scenario) (out *outcome) {
 		tick := time.NewTicker(200 * time.Microsecond)
 		lastCommit := -1
 		shutdown := false
+		// round 6: a node that keeps reverting and storing against a source that no longer changes never
+		// becomes quiescent; it is stopped after far more commits than convergence can need (the theorems
+		// bound it by |source| + |node| + in-flight stale blocks) instead of after the 40 s deadline
+		stableLen, sinceStable := -1, 0
 	loop:
 		for {
 			select {
@@ -460,6 +563,16 @@ func runScenario(sc Scenario) (out *outcome) {
 			if lc != lastCommit {
 				lastCommit = lc
 				src.honestLatest.Store(0)
+				if stableLen >= 0 {
+					sinceStable++
+				}
+			}
+			if stableLen < 0 && src.stable() {
+				stableLen = n
+			}
+			if stableLen >= 0 && sinceStable > 20*(len(final)+stableLen)+200 {
+				out.hang = fmt.Sprintf("livelock: more than %d commits after the source's chain (%d blocks) stopped changing (the node had %d blocks then) and still no convergence", sinceStable-1, len(final), stableLen)
+				break
 			}
 			if sc.ReadOnly && src.requests() >= 1 {
 				// a read-only synchroniser only polls the latest header (once a minute)
@@ -518,6 +631,15 @@ func runScenario(sc Scenario) (out *outcome) {
 		rec.mu.Unlock()
 		if !rec.drain(wantN, wantG, 300) {
 			out.drainLost = true
+		}
+		if lis.probe != nil && out.hang == "" && out.panicMsg == "" {
+			// Run has returned (all callbacks finished): the last stored block's notification is in the slot
+			lis.probeTake("after Run returned")
+			lis.probe.Unsubscribe()
+			out.probed += lis.probed
+			if out.probeMiss == "" {
+				out.probeMiss = lis.probeMiss
+			}
 		}
 		// give a duplicate / spurious send a moment to show up, then stop the readers
 		time.Sleep(2 * time.Millisecond)
@@ -618,6 +740,10 @@ func runScenario(sc Scenario) (out *outcome) {
 	out.plugin = append([]pluginCall{}, rec.plugin...)
 	out.afterReturn = rec.afterReturn
 	for k, v := range rec.ops {
+		if strings.HasPrefix(k, "probe-") {
+			out.persisted["probe:"+strings.TrimPrefix(k, "probe-")] += v
+			continue
+		}
 		out.persisted["isReverting:exit-"+k] += v
 	}
 	out.fetchCalls = append([]*fetchCall{}, rec.fetchCalls...)
